@@ -289,7 +289,7 @@ Results == {"ok", "nilPart", "chainID", "height", "numTxs", "lastBlockID", "data
             "vcSlotHeight", "vcRound", "vcType", "vcLabel", "vcSig", "vcPower"}
 
 TamperPairs == UNION {{<<FieldSeq[k], v>> : v \in FieldValsC[FieldSeq[k]]} : k \in 1..NF}
-MaxN        == 4
+MaxN        == 5
 
 Next ==
   \/ \E p \in TamperPairs : TamperField(p[1], p[2])
